@@ -228,6 +228,36 @@ pub fn gen_sjis_nonempty(rng: &mut Rng, max_chars: usize) -> String {
 pub fn gen_unicode(rng: &mut Rng, max_chars: usize) -> String {
     let n = rng.range(0, max_chars);
     let mut s = String::new();
+    if rng.chance(1, 12) {
+        // only code points below U+0100 (every UTF-16 unit has a zero high byte), some of them >= U+0080
+        for _ in 0..n.max(1) {
+            let c = if rng.bool() { rng.range(0x20, 0x7e) } else { rng.range(0x80, 0xff) } as u32;
+            s.push(char::from_u32(c).unwrap());
+        }
+        return s;
+    }
+    if !cfg!(miri) && max_chars >= 8 && rng.chance(1, 60) {
+        // long messages around the sizes where chunked UTF-16 code changes behaviour; an astral
+        // character (two units) is placed so that it straddles the boundary in half of them
+        let target = *rng.pick(&[255usize, 256, 257, 4095, 4096, 4097, 4098, 8192, 8193]);
+        let astral_at = if rng.bool() { Some(target.saturating_sub(rng.range(0, 2))) } else { None };
+        let mut units = 0;
+        while units < target {
+            if Some(units + 1) == astral_at && units + 2 <= target + 1 {
+                s.push('\u{1F600}');
+                units += 2;
+            } else {
+                let c = match rng.below(4) {
+                    0 => rng.range(0x3041, 0x3093) as u32,
+                    1 => rng.range(0xa1, 0xff) as u32,
+                    _ => rng.range(0x20, 0x7e) as u32,
+                };
+                s.push(char::from_u32(c).unwrap());
+                units += 1;
+            }
+        }
+        return s;
+    }
     const SPECIAL: &[u32] = &[
         0xFEFF, 0xFFFE, 0xFFFF, 0xBBEF, 0x00BF, 0xFFFD, 0x0301, 0x200D, 0x1F600, 0x10000,
         0x10FFFF, 0xD7FF, 0xE000, 0x0001, 0x007F, 0x0080, 0x00FF, 0x0100, 0x3042, 0x000A, 0x000D,
